@@ -306,7 +306,9 @@ func WorkerMain(t *testing.T, h Harness) {
 			rf.Tape = r.Tape
 			rm = h.RunOne(t, ReplayTape(r.Tape), prop, tier, true)
 			vm = relevant(&h, prop, &rm)
-			if vm == nil {
+			if vm == nil || vm.Signature != v.Signature {
+				// report the violation that was found and confirmed, never a different one
+				// that the last execution happens to show first
 				vm = v
 			}
 		}
